@@ -215,6 +215,24 @@ static long long execOp(World &w, const J &op, J &ev) {
             if (op.geti("unlink", 1)) unlink(p.c_str());
             w.obj(o).write(p);
         }
+        else if (name == "Reload") {
+            // save, then construct a new object from the file; the old object is kept if loading fails
+            std::string p = fullpath(op.at("path").s);
+            unlink(p.c_str());
+            J before = verif::abs(w.obj(o));
+            w.obj(o).write(p);
+            J after = verif::abs(w.obj(o));
+            bool ok; J b1 = fileBytes(p, ok);
+            ev.set("bytes", b1).set("exists", J(ok ? 1 : 0));
+            // C14: saving is pure (object unchanged) and repeatable (a second save gives the same bytes)
+            { std::vector<J> d; jdiff(before, after, "", d, 3); jdiff(after, before, "", d, 6);
+              J pd = J::arr(); for (size_t i = 0; i < d.size(); ++i) pd.push(d[i]); ev.set("purity", pd); }
+            { std::string p2 = p + ".again"; unlink(p2.c_str()); w.obj(o).write(p2); bool ok2; J b2 = fileBytes(p2, ok2);
+              size_t first = 0; while (first < b1.a.size() && first < b2.a.size() && b1.a[first].i == b2.a[first].i) ++first;
+              ev.set("repeat", J((b1.a.size() == b2.a.size() && first == b1.a.size()) ? -1 : static_cast<long long>(first))); unlink(p2.c_str()); }
+            std::unique_ptr<c3d> fresh(new c3d(p));
+            w.objs[o] = std::move(fresh);
+        }
         else if (name == "SetParam") {
             const J &pj = op.at("p");
             Parameter p(verif::uncodes(pj.at("n")), verif::uncodes(pj.at("d")));
@@ -321,6 +339,25 @@ static bool replayCase(const J &c, long long caseNo, long long &steps) {
         for (size_t i = 0; i < d.size(); ++i) { d[i].set("k", "res"); diffs.push_back(d[i]); }
     } else if (c.has("res") && out == "ok")
         diffs.push_back(J::obj().set("k", "res").set("path", "res").set("exp", c.at("res")).set("act", "<none>"));
+    if (ev.has("purity") && ev.at("purity").a.size())
+        diffs.push_back(J::obj().set("k", "purity").set("path", ev.at("purity").a[0].at("path")).set("exp", "object unchanged by save").set("act", ev.at("purity").a[0]));
+    if (ev.has("repeat") && ev.at("repeat").i >= 0)
+        diffs.push_back(J::obj().set("k", "repeat").set("path", "bytes").set("exp", "second save byte-identical").set("act", ev.at("repeat")));
+    if (c.has("bytes") && op.at("op").s == "Reload") {
+        const J &eb = c.at("bytes");
+        if (!ev.has("bytes")) diffs.push_back(J::obj().set("k", "bytes").set("path", "bytes").set("exp", J(eb.a.size())).set("act", "<no file>"));
+        else {
+            const J &ab = ev.at("bytes");
+            size_t n = eb.a.size() < ab.a.size() ? eb.a.size() : ab.a.size(), first = n;
+            for (size_t i = 0; i < n; ++i) if (eb.a[i].i != ab.a[i].i) { first = i; break; }
+            if (first < n || eb.a.size() != ab.a.size()) {
+                J d = J::obj().set("k", "bytes").set("path", "bytes@" + std::to_string(first))
+                    .set("exp", first < n ? eb.a[first] : J(eb.a.size())).set("act", first < n ? ab.a[first] : J(ab.a.size()))
+                    .set("explen", J(eb.a.size())).set("actlen", J(ab.a.size())).set("actbytes", ab);
+                diffs.push_back(d);
+            }
+        }
+    }
     if (ev.has("sets") && c.has("sets")) {
         std::vector<J> d; jdiff(c.at("sets"), ev.at("sets"), "sets", d, 4);
         for (size_t i = 0; i < d.size(); ++i) { d[i].set("k", "sets"); diffs.push_back(d[i]); }
@@ -390,7 +427,7 @@ static int modeReplay() {
 int main(int argc, char **argv) {
     std::string mode = argc > 1 ? argv[1] : "run";
     for (int i = 2; i < argc; ++i) {
-        if (!strcmp(argv[i], "--dir") && i + 1 < argc) g_dir = argv[++i];
+        if (!strcmp(argv[i], "--dir") && i + 1 < argc) { g_dir = argv[++i]; mkdir(g_dir.c_str(), 0777); }
         else if (!strcmp(argv[i], "--nopost")) g_nopost = true;
     }
     std::ios::sync_with_stdio(false);
